@@ -30,12 +30,36 @@ Definition ext_swap_forward (A B : program) (u : user_guide) dec repr byp simp b
 Definition ext_swap_backward (A B : program) (u : user_guide) dec repr byp simp brk : ext_task :=
   mkext (inl A) B u [] dec DBackward repr byp simp brk.
 
+(* the vocabulary on which external behaviour is read (program predicates, inputs, the output
+   predicates that OCCUR IN THE TASK - /repo 18b2e85) is the same for the two tasks: the same two
+   programs occur in both, in the other order *)
+Lemma swap_ext_voc A B u dec repr byp simp brk P :
+  ext_voc (ext_swap_forward A B u dec repr byp simp brk) P = ext_voc (ext_swap_backward A B u dec repr byp simp brk) P.
+Proof.
+  unfold ext_voc, occurring_outputs. f_equal. f_equal. apply filter_ext. intros q.
+  unfold task_occurring_predicates, ext_swap_forward, ext_swap_backward. cbn [et_specification et_program].
+  destruct (Base.ISet.memb_spec pred_dec q (Base.ISet.iset_extend pred_dec (program_preds B) (program_preds A))) as [H|H];
+  destruct (Base.ISet.memb_spec pred_dec q (Base.ISet.iset_extend pred_dec (program_preds A) (program_preds B))) as [H'|H'];
+    try reflexivity; exfalso; rewrite (Base.ISet.in_iset_extend pred_dec) in H, H'; tauto.
+Qed.
+Lemma swap_ext_stable_full A B u dec repr byp simp brk FI M P :
+  ext_stable_full (ext_swap_forward A B u dec repr byp simp brk) FI M P <->
+  ext_stable_full (ext_swap_backward A B u dec repr byp simp brk) FI M P.
+Proof. unfold ext_stable_full. rewrite swap_ext_voc. reflexivity. Qed.
+
 Theorem swap_external_difference A B u dec repr byp simp brk FI T :
   behavioural_difference (ext_swap_forward A B u dec repr byp simp brk) B FI T <->
   behavioural_difference (ext_swap_backward A B u dec repr byp simp brk) A FI T.
 Proof.
-  unfold behavioural_difference, ext_swap_forward, ext_swap_backward. cbn [et_direction et_program dir_forward dir_backward].
-  split; intros [Hug [[Hd H]|[Hd H]]]; try discriminate; (split; [exact Hug|]); [right|left]; (split; [reflexivity|exact H]).
+  assert (E : forall N P, (pub_agree (ext_swap_forward A B u dec repr byp simp brk) N T /\
+                           ext_stable_full (ext_swap_forward A B u dec repr byp simp brk) FI N P) <->
+                          (pub_agree (ext_swap_backward A B u dec repr byp simp brk) N T /\
+                           ext_stable_full (ext_swap_backward A B u dec repr byp simp brk) FI N P)).
+  { intros N P. rewrite swap_ext_stable_full. reflexivity. }
+  unfold behavioural_difference. cbn [ext_swap_forward ext_swap_backward et_direction et_program dir_forward dir_backward].
+  split; intros [Hug [[Hd [H1 H2]]|[Hd [H1 H2]]]]; try discriminate; (split; [exact Hug|]); [right|left];
+    (split; [reflexivity|]); (split; [apply swap_ext_stable_full; exact H1|]);
+    intros [N HN]; apply H2; exists N; apply E; exact HN.
 Qed.
 
 Section Fuel.
